@@ -44,7 +44,7 @@ def cases(draw):
             arg = draw(st.integers(0, 3))
         at = draw(st.sampled_from([["start"], ["start"], ["start"], ["after", draw(st.integers(0, max(0, i - 1)))], ["step", draw(st.integers(0, 25))]])) if i else ["start"]
         ops.append({"kind": kind, "arg": arg, "at": at, "via": draw(st.sampled_from(["w", "w", "w+r"]))})
-    return {"threads": draw(st.sampled_from(["sync", "async"])), "mode": mode, "fmt": draw(st.sampled_from(["sdmf", "mdmf"])), "k": draw(st.integers(1, 2)), "n": draw(st.integers(2, 4)), "ops": ops,
+    return {"hsalt": draw(st.integers(0, 15)), "threads": draw(st.sampled_from(["sync", "async"])), "mode": mode, "fmt": draw(st.sampled_from(["sdmf", "mdmf"])), "k": draw(st.integers(1, 2)), "n": draw(st.integers(2, 4)), "ops": ops,
             "sched": draw(st.lists(st.integers(0, 9), max_size=draw(st.sampled_from([0, 30, 200]))))}
 
 
